@@ -16,6 +16,10 @@ def truncations(trace, render, rnd, points):
             line = printer.line(nxt, **render) if nxt['e'] == 'msg' else nxt['text']
             cut = rnd.randint(0, len(line))
             part = line[:cut]
+            if part != line and nxt['e'] == 'msg' and part.strip().endswith(')'):
+                # a cut right after a `)` inside a string argument leaves text that is itself a (different) complete message
+                # line: what it denotes is not this generator's business
+                part = part.strip()[:-1]
             if part == line and nxt['e'] == 'msg':
                 t['events'].append({'in': dict(copy.deepcopy(nxt), nonl=True, line=line)})   # complete line, no newline
             elif part.strip() != '' or part != '':
